@@ -178,7 +178,7 @@ def run(ctx):
         fi = torch.finfo(wd)
         emin = int(np.log2(fi.smallest_normal))
         for qtn, storage in STORAGE.items():
-            scales = scalar_scales(rng, V, wd, storage, n_rand=12 if thorough else 3)
+            scales = scalar_scales(rng, V, wd, storage, n_rand=96 if thorough else 3)
             for recipe, s in scales:
                 for entry in ("quantize_activation", "SymmetricQuantizer.apply"):
                     k += 1
@@ -189,7 +189,7 @@ def run(ctx):
             cols = N // rows
             shapes = [((rows, cols), 0), ((cols, rows), -1), ((rows, 8, cols // 8), 0), ((8, cols // 8, rows), -1),
                       ((rows, 2, 4, cols // 8), 0), ((2, 4, cols // 8, rows), -1)]
-            for rep in range(4 if thorough else 1):
+            for rep in range(16 if thorough else 1):
                 for shape, axis in shapes:
                     k += 1
                     perm = torch.from_numpy(rng.permutation(N))
@@ -211,7 +211,7 @@ def run(ctx):
     wd = torch.float32
     for qtn, storage in STORAGE.items():
         srs = [2.0 ** e for e in (-100, -20, -7, 0, 5, 60)] + [0.0123, 3.7, 1e-3, 1234.5, 1e-40, 2.0 ** -149, 2e-39]
-        srs += list(gen.loguniform(rng, 1e-30, 1e25, size=24 if thorough else 6))
+        srs += list(gen.loguniform(rng, 1e-30, 1e25, size=120 if thorough else 6))
         rows_x, rows_s = [], []
         for s in srs:
             sv = torch.tensor(s, dtype=F64).to(wd)
@@ -242,7 +242,7 @@ def run(ctx):
             judge(ctx, X3, qtn, storage, S0.reshape(-1, 1, 1, 1), 0, "SymmetricQuantizer.apply", "boundary-rank4",
                   "contiguous", qtypes, fn_act, SQ)
         # random bit patterns with scales that saturate part of them
-        for rep in range(24 if thorough else 4):
+        for rep in range(120 if thorough else 4):
             k += 1
             r = gen.random_bits_f32(rng, 200_000 if thorough else 50_000)
             expo = float(rng.integers(-30, 30))
